@@ -4,8 +4,8 @@ import os, sys, time, json, hashlib, subprocess, importlib, traceback
 from . import engine, known
 
 HERE = os.path.dirname(os.path.dirname(os.path.abspath(__file__)))
-EVID = os.path.join(HERE, 'evidence')
-REPLAYS = os.path.join(HERE, 'replays')
+EVID = os.environ.get('VERIF_EVIDENCE_DIR') or os.path.join(HERE, 'evidence')
+REPLAYS = os.environ.get('VERIF_REPLAYS_DIR') or os.path.join(HERE, 'replays')
 SCHEMA = '/root/.vp/EVIDENCE.schema.json'
 ALL_IDS = ['C%02d' % i for i in range(1, 21)]
 
